@@ -372,6 +372,9 @@ PROPS["C18"]["must_cover"]["timer_constructions"] = ["builder.then_send", "into_
 PROPS["C18"]["rule"] += "; each sequence runs for notify_after / notify_at, two constructions of the timer command (builder chain; into_future at construction time, awaited later) and zero duration / the epoch; start+clear in one update through both APIs; several capability-API timers at once with other timers cleared late in between"
 PROPS["C20"]["floors"]["quick"].update({"sibling_swap_renumberings": 14, "load_failures_injected": 10, "own_protocol_types_required": 18})
 PROPS["C20"]["must_cover"]["descriptions"] = sorted(set(PROPS["C20"]["must_cover"]["descriptions"]) | {"crux_core", "crux_http", "crux_kv", "crux_platform", "crux_time"})
+PROPS["C20"]["floors"]["quick"].update({"sentinel_number_renumberings": 8, "description_edits.field_edits": 15, "description_edits.variant_emptied": 8, "description_edits.visible": 15})
+PROPS["C20"]["level_text"] += " Beyond the bundled descriptions as they are: renumberings that hand a struct / enum item a sentinel-looking number (0, 1, u32::MAX); and edits of a bundled description whose effect on the registry is predicted independently - a field's primitive type replaced by another (every supported primitive, isize and usize included; table written down in the harness), a field's type wrapped in Option / Vec / Option<Option<>> / Vec<Option<>> / Option<Vec<>>, a one-field variant turned into V() / V {} - each after a control edit that shows where the field is visible; the edited registry must change exactly there and as predicted, stay closed and keep contiguous variant indices."
+PROPS["C20"]["must_cover"]["description_edit_kinds"] = ["T -> Option<T>", "T -> Option<Option<T>>", "T -> Vec<T>"]
 PROPS["C20"]["rule"] += "; roots are the 7 bundled apps and the 5 capability crates on their own (whose registries must contain their protocol types); renumberings: affine, dense, forced cross-crate collisions, sibling swaps; fault injection: each dependent crate's description unavailable in turn (the run must fail or stay closed)"
 
 ENGINES = [
